@@ -676,6 +676,13 @@ def oracle(p):
             for oi, (u, uk) in enumerate(objs):
                 if not consistent(u, uk):
                     continue
+                if uk == "svf" and bool(u.exp.align_corners) != bool(u.grid().align_corners()):
+                    # the ExpFlow module is shared by shallow copies; grid_ of ANOTHER copy rewrote its flag
+                    report("C09:StationaryVelocityFieldTransform.grid_:shared-ExpFlow:align_corners-of-another-grid",
+                           "grid_() of a shallow copy sets exp.align_corners on the ExpFlow module it shares with this transform: "
+                           f"this transform's grid has align_corners={u.grid().align_corners()} but it exponentiates with "
+                           f"align_corners={u.exp.align_corners}", list(hist), {"object": oi})
+                    continue
                 try:
                     tw = fresh_twin(u, uk)
                     with torch.no_grad():
